@@ -417,25 +417,14 @@ theorem quantizationParams_spec (a : Attribute) (o : AttOpts) (mins : List Nat) 
 
 /-! ### octahedral values -/
 
-/-- the float part of `FloatVectorToQuantizedOctahedralCoords` delivered a first rounded coordinate
-    of magnitude at most `center_value_` for this normal (true of every finite, NaN or infinite
-    input of the executable `Float` instance as far as tested; not provable in Lean, where the
-    float operations are opaque) -/
-def octaRowOK (t : OctaT) (row : Bytes) : Prop :=
-  match rowF32s 3 row with
-  | [x, y, z] =>
-    iabs (Octa.floatVecRound t (Float32.ofBits x.toUInt32, Float32.ofBits y.toUInt32,
-      Float32.ofBits z.toUInt32)).1 ≤ t.center
-  | _ => True
-
-theorem octaRow_entry (t : OctaT) (hwf : t.WF) (row : Bytes) (h : octaRowOK t row) :
+theorem octaRow_entry (t : OctaT) (hwf : t.WF) (row : Bytes) (h : octaRowOK t row = true) :
     OctaEntry t (octaRow t row) := by
   unfold octaRowOK at h
   unfold octaRow
   have e : rowF32s 3 row = [leValue (row.take 4), leValue ((row.drop 4).take 4),
       leValue (((row.drop 4).drop 4).take 4)] := rfl
   rw [e] at h ⊢
-  simp only at h ⊢
+  simp only [decide_eq_true_eq] at h ⊢
   unfold Octa.floatVecToCoords
   generalize Octa.floatVecRound t _ = r at h ⊢
   have hs := Octa.fixIntVec_abs_sum t r.1 r.2.1 r.2.2 h
@@ -461,7 +450,7 @@ theorem entriesOf_flatten (nc : Nat) (hnc : 0 < nc) : ∀ (ls : List (List Int))
       rw [List.take_left' hl, List.drop_left' hl, ih f (fun x hx => h x (by simp [hx])) (by simpa using hf)]
 
 theorem octaPortable_spec (t : OctaT) (hwf : t.WF) (rows : List Bytes)
-    (hok : ∀ r ∈ rows, octaRowOK t r) :
+    (hok : ∀ r ∈ rows, octaRowOK t r = true) :
     (octaPortable t rows).length = rows.length * 2 ∧
       (∀ x ∈ octaPortable t rows, -2 ^ 31 ≤ x ∧ x < 2 ^ 31) ∧
       ∀ e ∈ entriesOf 2 (octaPortable t rows).length (octaPortable t rows), OctaEntry t e := by
